@@ -203,7 +203,7 @@ fn quats(d: &mut Drv) {
     d.call("angle_axis", || json!({"q": eq_(&idq)}), || { let (a, axis) = idq.into_angle_axis(); json!({"ang": token_of(a), "axis": evs(&[axis.x, axis.y, axis.z])}) });
 }
 /// an angle value as a list of tokens [base, multiple]: base 0 = quarter turns, 1..4 = the Pythagorean angles
-fn token_of(a: Q) -> Value {
+pub fn token_of(a: Q) -> Value {
     let c = match a.combo() { Some(c) => c, None => crate::q::inconclusive("angle result is a plain number") };
     let mut out = vec![];
     if c[0].0 != 0 {
